@@ -13,13 +13,10 @@ engine.write_kani_crate(u, u['kani'], bdir, ex)
 env = dict(os.environ, CARGO_NET_OFFLINE='true')
 t = time.time()
 cmd = engine.KANI_BASE + ['--harness', 'proofs::' + h, '--exact'] + u['kani'].get('kani_flags', [])
-try:
-    r = subprocess.run(cmd, cwd=bdir, env=env, capture_output=True, text=True, timeout=tmo)
-    out = r.stdout + r.stderr
-except subprocess.TimeoutExpired as e:
-    out = (e.stdout or b'').decode() if isinstance(e.stdout, bytes) else (e.stdout or '')
-    out += '\nTIMEOUT'
-    subprocess.run(['pkill', '-f', 'cbmc'])
+# own process group, so that a timeout kills only this experiment's cbmc (never `pkill cbmc`: it kills
+# the solvers of every check running at the same time, which then report UNDECIDED)
+rc, o, e, wall, to = engine.sh(cmd, cwd=bdir, env=env, timeout=tmo)
+out = o + e + ('\nTIMEOUT' if to else '')
 keep = [l for l in out.splitlines() if re.search(r'^VERIFICATION|^error|Verification Time|TIMEOUT|Failed Checks|^ \*\* |File:|^SUMMARY', l)]
 print('\n'.join(keep[:40]))
 print('wall %.1fs' % (time.time() - t))
